@@ -139,6 +139,7 @@ func NewEng(t *rapid.T, cfg EngCfg) *Eng {
 		}
 	}
 	fositeSession := rapid.Bool().Draw(t, "fositeSessionType")
+	plainSession := fositeSession && !jwt && rapid.IntRange(0, 2).Draw(t, "plainOAuth2Session") == 0
 	legacyRevoker := cfg.Prop == "C08" && rapid.IntRange(0, 2).Draw(t, "legacyRevocationHandlerFirst") == 0
 	if cfg.Prop == "C09" {
 		// "covered ... under the configured scope strategy": the engine's scope names are plain words, which every
@@ -149,7 +150,7 @@ func NewEng(t *rapid.T, cfg EngCfg) *Eng {
 		// "... and scope strategy": a registration covers exactly the plain names it lists under each of them
 		e.scopeStrategy = rapid.SampledFrom([]string{"", "wildcard", "hierarchic", "hierarchic", "exact"}).Draw(t, "scopeStrategy")
 	}
-	e.w = h.NewWorld(h.Spec{Store: store, JWTAccess: jwt, FositeSession: fositeSession, LegacyRevocationHandler: legacyRevoker, ScopeStrategy: e.scopeStrategy, RefreshScopes: refreshScopeSets[e.rsMode], Mutate: func(c *fosite.Config) {
+	e.w = h.NewWorld(h.Spec{Store: store, JWTAccess: jwt, FositeSession: fositeSession, PlainSession: plainSession, LegacyRevocationHandler: legacyRevoker, ScopeStrategy: e.scopeStrategy, RefreshScopes: refreshScopeSets[e.rsMode], Mutate: func(c *fosite.Config) {
 		c.AuthorizeCodeLifespan = e.codeLife
 		c.AccessTokenLifespan = e.atLife
 		c.RefreshTokenLifespan = e.rtLife
@@ -193,8 +194,10 @@ func NewEng(t *rapid.T, cfg EngCfg) *Eng {
 	e.w.AddUser("peter", "pw")
 	e.label(fmt.Sprintf("store=%s", store))
 	e.label(fmt.Sprintf("jwt=%v", jwt))
-	if e.w.NoOIDC() {
+	if e.w.NoOIDC() && jwt {
 		e.label("session-type=oauth2.JWTSession")
+	} else if e.w.NoOIDC() {
+		e.label("session-type=fosite.DefaultSession")
 	}
 	e.label(fmt.Sprintf("refreshScopes=%d", e.rsMode))
 	return e
